@@ -68,7 +68,7 @@ static std::string auto_trigger(const std::string& cl) {
     if (cl == "enclosure:result-loses-points" && CUR_LOST >= 0 && CUR_AFTER >= 0) { std::string t = tg_lost_direction(CL[CUR_LOST], CL[CUR_AFTER]); if (t != "none") return t; }
   }
   // Octagonal_Shape<intN>: minimized_constraints() (strong reduction) does not terminate on a matrix whose entries were saturated by an overflow
-  if (!EXACT_T && KIND == K_OCT && BT<BTy>::bits > 0 && !BT<BTy>::is_float && cl == "crash:SIGALRM(hang)" && CUR_OP && tg_some_piece_bound_exceeds()) return "exact_bound_exceeds_range_of_bound_type";
+  if (!EXACT_T && KIND == K_OCT && BT<BTy>::bits > 0 && !BT<BTy>::is_float && (cl == "crash:SIGALRM(hang)" || cl == "crash:SIGSEGV" || cl == "crash:SIGABRT" || cl == "crash:SIGKILL") && CUR_OP && CUR_OP->args.fam != "simplify" && tg_some_piece_bound_exceeds()) return "exact_bound_exceeds_range_of_bound_type";
   if (!EXACT_T && !LAST_BAD && cl == "invariant:OK()" && KIND == K_BOX && BT<BTy>::is_float && tg_some_piece_bound_exceeds()) return "exact_bound_exceeds_range_of_bound_type";
   if (CUR_CLS < 0) return "none";
   const Cell& P = CL[CUR_CLS];
